@@ -32,7 +32,7 @@ def generate(tier, rng):
     for form, ty in (('tuple', 'String'), ('named', 'String'), ('tuple', 'BoxStr'), ('named', 'BoxStr')):
         for pos in (0, 2, 4):
             for style in (None, 'snake_case'):
-                e = new(['EnumString', 'Display'], ['parse', 'names'], style=style, ci=(pos == 2))
+                e = new(['EnumString', 'Display'], ['parse', 'names'], style=style, ci=(pos == 2), prefix=[None, 'colour/', ''][(pos // 2 + (style is None)) % 3])
                 e.variants = others(n)
                 dv = VSpec(ident='Other', kind=form, ftypes=[ty], default=True)
                 if form == 'named':
